@@ -276,18 +276,19 @@ def part_layout(ck):
     rnd = random.Random(ck.seed * 104729 + 35)
     runs = []
     # depth <= 1: every wrapper, every layout parameter
-    runs.append(("LineTrack depth<=1, all layouts",
-                 lt_cfg(ALL_WRAPPERS, 1, [0, 2], ALL_GAPS if not quick else ["tight", "nl", "txtnl"],
-                        ["tight", "nl", "nl2", "nlsp"] if not quick else ["tight", "nl", "nlsp"], ALL_SIGNS, [0, 1], [False, True],
-                        ALL_PROBES if not quick else ["raise", "badtag", "badchar"])))
-    # depth 2 (quick) / 3 (thorough): every nesting, fewer layouts
     if quick:
+        runs.append(("LineTrack depth<=1, all layouts",
+                     lt_cfg(ALL_WRAPPERS[:3] + ALL_WRAPPERS[6:], 1, [0, 2], ["tight", "nl", "txtnl"], ["tight", "nl", "nlsp"],
+                            ALL_SIGNS, [0, 1], [False, True], ["raise", "badtag", "badchar"])))
         runs.append(("LineTrack depth 2, every nesting",
-                     lt_cfg(ALL_WRAPPERS, 2, [1], ["nl"], ["nl", "tight"], ["none", "both"], [0], [False, True],
+                     lt_cfg(ALL_WRAPPERS, 2, [1], ["nl"], ["nl"], ["none", "both"], [0], [False, True],
                             ["raise"] + STMT_PROBES)))
     else:
+        runs.append(("LineTrack depth<=1, all layouts",
+                     lt_cfg(ALL_WRAPPERS, 1, [0, 2], ALL_GAPS, ["tight", "nl", "nl2", "nlsp", "txtnl", "nltxt"], ALL_SIGNS,
+                            [0, 1], [False, True], ALL_PROBES[:5])))
         runs.append(("LineTrack depth 2, every nesting",
-                     lt_cfg(ALL_WRAPPERS, 2, [0, 1], ["nl", "nlsp", "tight"], ["nl", "tight", "nl2"], ALL_SIGNS, [0, 1],
+                     lt_cfg(ALL_WRAPPERS, 2, [0, 1], ["nl", "tight"], ["nl", "tight", "nlsp"], ["none", "both"], [0],
                             [False, True], ["raise", "badtag"] + STMT_PROBES)))
         runs.append(("LineTrack depth 3, every nesting",
                      lt_cfg(ALL_WRAPPERS, 3, [1], ["nl"], ["nl"], ["none", "both"], [0], [False, True], ["raise"])))
@@ -310,7 +311,7 @@ def part_layout(ck):
     n = 0
     per_wrapper = {}
     for c in cases:
-        nls = ["lf", "crlf", "cr"] if not quick else [rnd.choice(["lf", "crlf", "cr"])]
+        nls = ["lf", "crlf", "cr"] if (not quick and len(c["wraps"]) <= 1) else [rnd.choice(["lf", "crlf", "cr"])]
         for nl in nls:
             n += replay_case(ck, c, nl)
             n += check_token_lines(ck, c, nl)
